@@ -251,6 +251,8 @@ def pruning_differential(ctx, budget_frac=1.0):
         if ctx.out_of_time(budget_frac):
             ctx.count("pruning_truncated_by_budget")
             break
+        if s == "bt" and (i // ctx.nshards) % 3 != ctx.seed % 3:
+            continue  # bt is comp-or-all: swept for a third of the cases per seed
         pruning_case(ctx, rid, kind, d, s, automorphism=False)
         pruning_case(ctx, rid, kind, d, s, automorphism=True)
 
